@@ -867,11 +867,14 @@ class LatticeConstraints(keras.constraints.Constraint):
     self.monotonicities = utils.canonicalize_monotonicities(
         monotonicities, allow_decreasing=False)
     self.unimodalities = utils.canonicalize_unimodalities(unimodalities)
-    self.edgeworth_trusts = utils.canonicalize_trust(edgeworth_trusts)
-    self.trapezoid_trusts = utils.canonicalize_trust(trapezoid_trusts)
-    self.monotonic_dominances = monotonic_dominances
-    self.range_dominances = range_dominances
-    self.joint_monotonicities = joint_monotonicities
+    # The projection uses each constraint as a dictionary key. Configs restored
+    # from JSON carry them as lists, so normalize to tuples.
+    as_tuples = lambda cs: [tuple(c) for c in cs] if cs else cs
+    self.edgeworth_trusts = as_tuples(utils.canonicalize_trust(edgeworth_trusts))
+    self.trapezoid_trusts = as_tuples(utils.canonicalize_trust(trapezoid_trusts))
+    self.monotonic_dominances = as_tuples(monotonic_dominances)
+    self.range_dominances = as_tuples(range_dominances)
+    self.joint_monotonicities = as_tuples(joint_monotonicities)
     self.joint_unimodalities = joint_unimodalities
     self.output_min = output_min
     self.output_max = output_max
